@@ -5,10 +5,12 @@ import numpy as np
 
 from common import err_code
 import py2v_store
+import py2v_storeops
 
 CONFIG = {
-    "cone": ["Base/ListUtil.v", "Model/Store.v", "Proofs/StoreProofs.v", "Properties/C13.v", "Generated/StoreAddGen.v", "Refine/StoreAddRefine.v"],
-    "extra_property_files": ["Refine/StoreAddRefine.v"],
+    "cone": ["Base/ListUtil.v", "Model/Store.v", "Proofs/StoreProofs.v", "Properties/C13.v", "Generated/StoreAddGen.v", "Refine/StoreAddRefine.v",
+             "Model/StoreOpsFacts.v", "Generated/StoreOpsGen.v", "Refine/StoreOpsRefine.v"],
+    "extra_property_files": ["Refine/StoreAddRefine.v", "Refine/StoreOpsRefine.v"],
     "trusted": ["harness/py2v_store.py: fail-closed extractor of the phase order of ArrayStore.add (count, transforms, empty return, length check, key "
                 "check, conversion of every field, occupancy, writes) into Generated/StoreAddGen.v on every run; Refine/StoreAddRefine.v proves it is the "
                 "order Model/Store.v implements and that no phase that can raise follows a phase that writes",
@@ -574,6 +576,7 @@ def check(rep, tier, seed, driver):
     import os
     from common import CORPUS
     py2v_store.report(rep)
+    py2v_storeops.report(rep)
     rng = random.Random(seed)
     n = 1500 if tier == "quick" else 20000
     rep.rule = ("random ArrayStore histories (add with arbitrary/repeated/unsorted indices and transform chains, malformed adds, "
